@@ -49,9 +49,20 @@ func (c *V1) String() string {
 	return "v1(" + c.prefix + ")[" + strings.Join(names, ", ") + "]"
 }
 
+// controllers returns every controller of the group, whether this handle created its directory or not
+func (c *V1) controllers() []*v1controller {
+	var r []*v1controller
+	for _, v := range []*v1controller{c.cpu, c.cpuset, c.cpuacct, c.memory, c.pids} {
+		if v != nil {
+			r = append(r, v)
+		}
+	}
+	return r
+}
+
 // AddProc writes cgroup.procs to all controller
 func (c *V1) AddProc(pids ...int) error {
-	for _, s := range c.all {
+	for _, s := range c.controllers() {
 		if err := s.AddProc(pids...); err != nil {
 			return err
 		}
@@ -61,10 +72,11 @@ func (c *V1) AddProc(pids ...int) error {
 
 // Processes lists all existing process pid from the cgroup
 func (c *V1) Processes() ([]int, error) {
-	if len(c.all) == 0 {
+	all := c.controllers()
+	if len(all) == 0 {
 		return nil, os.ErrInvalid
 	}
-	return ReadProcesses(filepath.Join(c.all[0].path, cgroupProcs))
+	return ReadProcesses(filepath.Join(all[0].path, cgroupProcs))
 }
 
 // New creates a sub-cgroup based on the existing one
